@@ -29,6 +29,11 @@ CHECKS = {
             "Histories of presence masks (stay/flip/random/all-absent/all-present, momentum scheduled to zero and back) over parameter sets where misalignment would not raise; invariants are bitwise.",
             "Reference model of C01; reachability walk covers dicts, sequences and module-like state objects.",
             "6/C04"),
+    "C13": ("fault_enumeration",
+            "model-based fault injection: Hypothesis state machine drives the real optimizer while the matrix routine is wrapped from the harness; an outcome script (ok/raise/NaN/Inf) per factor per refresh is checked against a per-block failure-counter model; invariants on raise (no parameter modified) and on stored matrices (finite)",
+            "For every generated history of gradient-presence masks and outcome scripts the predicted raise/no-raise and exception type must match at every step; tolerated failures must keep the previous matrix bitwise, store the successful ones, and log a warning naming the factor. Fault scripts are enumerated by generation, not exhaustively.",
+            "Fault injection by unittest.mock on the names imported into shampoo_preconditioner_list; call order = parameters, blocks, factors of blocks with a gradient.",
+            "6/C13"),
 }
 
 PENDING_REASON = "check not built yet at this commit (work in progress; all eighteen properties are planned to be claimed, see DESIGN.md section 0)"
